@@ -127,7 +127,7 @@ def t_lookup(a, wv):
 # -- formulas ----------------------------------------------------------------------------
 class F:
     """Stand-in for a pysmt Boolean FNode."""
-    __slots__ = ("bv", "kind", "args", "name", "_sk")
+    __slots__ = ("bv", "kind", "args", "name", "_sk", "_key")
 
     def __init__(self, bv, kind, args=(), name=None):
         self.bv = bv
@@ -135,6 +135,21 @@ class F:
         self.args = args
         self.name = name
         self._sk = None
+        # pysmt formulas and z3 terms are hash-consed: structurally identical formulas are
+        # the same node (equal, same hash).  The stand-in mirrors that with a structural key.
+        self._key = (kind, name, tuple(a._key for a in args))
+
+    def eq(self, other):            # z3 ExprRef API
+        return isinstance(other, F) and self._key == other._key
+
+    def hash(self):                 # z3 ExprRef API
+        return hash(self._key)
+
+    def get_id(self):
+        return hash(self._key)
+
+    def node_id(self):
+        return hash(self._key)
 
     # pysmt-ish API used by the repository
     def is_symbol(self):
@@ -187,13 +202,13 @@ class F:
             return Not(self)
         if o is True:
             return self
-        return self is o
+        return isinstance(o, F) and self._key == o._key
 
     def __ne__(self, o):
-        return not (self is o)
+        return not (isinstance(o, F) and self._key == o._key)
 
     def __hash__(self):
-        return id(self)
+        return hash(self._key)
 
     def __str__(self):
         # pysmt's FNode.__str__ is serialize(threshold=5): nodes deeper than five
